@@ -552,6 +552,8 @@ def atom_text(a):
         return "%s(%s)" % (a[1], ",".join(Poly(dict(x)).text() for x in a[2]))
     if k == "num":
         return str(a[1])
+    if k == "guard":
+        return "[%s]" % Poly(dict(a[1])).text()
     return str(a)
 
 
@@ -572,6 +574,13 @@ class Ev:
         self.mismatches = []  # (text, message)
         self.depth = 0
         self.switch_results = []
+        self.expand = False    # distribute products of sums instead of atomising the factors
+        self.lenient = False   # skip statements that cannot be interpreted (their targets become unknown)
+        self.unroll = False    # execute counted loops with constant bounds iteration by iteration
+        self.max_iter = 400
+        self.concrete = {}     # field key / variable name -> constant, for unrolling
+        self.calls = []        # call statements met: {name, args: [Poly|None], conds, node}
+        self.skipped = []
 
     # ---- degrees -------------------------------------------------------------------------
     def deg_atom(self, a):
@@ -626,7 +635,7 @@ class Ev:
         return Poly.atom(("sum", p.canon()))
 
     def mul(self, a, b, where=""):
-        if a.is_const() or b.is_const() or a.single() or b.single():
+        if self.expand or a.is_const() or b.is_const() or a.single() or b.single():
             return a.mul_raw(b)
         return self.atomise(a, where).mul_raw(self.atomise(b, where))
 
@@ -699,9 +708,20 @@ class Ev:
                     return Poly.atom(("fn", "idiv", (x.canon(), y.canon())))
                 return self.mul(x, self.inv(y, self.where(n)), self.where(n))
             if op == "%":
-                return Poly.atom(("fn", "imod", (self.expr(a, env).canon(), self.expr(b, env).canon())))
+                x, y = self.expr(a, env), self.expr(b, env)
+                cx, cy = x.const_value(), y.const_value()
+                if cx is not None and cy is not None and cy != 0 and cx.denominator == 1 and cy.denominator == 1:
+                    q = abs(int(cx)) % abs(int(cy))
+                    return Poly.const(q if cx >= 0 else -q)
+                return Poly.atom(("fn", "imod", (x.canon(), y.canon())))
             if op in ("<", ">", "<=", ">=", "==", "!=", "&&", "||"):
-                return Poly.atom(("fn", op, (self.expr(a, env).canon(), self.expr(b, env).canon())))
+                x, y = self.expr(a, env), self.expr(b, env)
+                cx, cy = x.const_value(), y.const_value()
+                if cx is not None and cy is not None:
+                    r = {"<": cx < cy, ">": cx > cy, "<=": cx <= cy, ">=": cx >= cy, "==": cx == cy,
+                         "!=": cx != cy, "&&": bool(cx) and bool(cy), "||": bool(cx) or bool(cy)}[op]
+                    return Poly.const(1 if r else 0)
+                return Poly.atom(("fn", op, (x.canon(), y.canon())))
             raise AnalysisError("unsupported binary operator %s in %s" % (op, self.where(n)))
         if k == "ArraySubscriptExpr":
             base, idx = cfacts.kids(n)
@@ -711,11 +731,34 @@ class Ev:
             return self.call(n, env)
         if k == "ConditionalOperator":
             c, a, b = cfacts.kids(n)
-            return Poly.atom(("fn", "?:", (self.expr(c, env).canon(), self.expr(a, env).canon(),
-                                           self.expr(b, env).canon())))
+            cv, av, bv = self.expr(c, env), self.expr(a, env), self.expr(b, env)
+            c0 = cv.const_value()
+            if c0 is not None:
+                return av if c0 != 0 else bv
+            # b + [c]*(a - b): the same normal form as the merge after `if (c) x = a;`
+            return bv + self.mul(Poly.atom(("guard", cv.canon())), av - bv)
         if k == "MemberExpr":
-            return Poly.atom(("sym", "member:" + norm_c(self.tu.text_of(n))))
+            key = self.field_key(n)
+            if key in env["fields"]:
+                v = env["fields"][key]
+                if v is None:
+                    raise AnalysisError("field %s is not tracked (%s)" % (key, self.where(n)))
+                return v
+            tk = key.split("@")[0]
+            if tk in env.get("fields_by_type", {}):
+                return env["fields_by_type"][tk]
+            if tk in self.concrete:
+                return Poly.const(self.concrete[tk])
+            return Poly.atom(("sym", key))
+        if k == "UnaryExprOrTypeTraitExpr":
+            return Poly.atom(("sym", "sizeof:" + norm_c(self.tu.text_of(n))))
         raise AnalysisError("unsupported expression kind %s in %s" % (k, self.where(n)))
+
+    def field_key(self, n):
+        """member:<type of the object>.<field>@<spelling of the object>"""
+        ks = cfacts.kids(n)
+        bt = _qt(ks[0]).replace("const ", "").replace(" ", "") if ks else "?"
+        return "member:%s.%s@%s" % (bt, n.get("name"), norm_c(self.tu.text_of(ks[0])) if ks else "?")
 
     def where(self, n):
         return "%s:%s `%s`" % (self.tu.rel, self.tu.line_of(n), re.sub(r"\s+", " ", self.tu.text_of(n))[:80])
@@ -769,7 +812,9 @@ class Ev:
             if _is_ptr(b) and n["opcode"] == "+":
                 r, off = self.pointer(b, env)
                 return (r, off + self.expr(a, env))
-        if k == "ArraySubscriptExpr" or k == "MemberExpr" or k == "CallExpr":
+        if k == "MemberExpr":
+            return (self.field_key(n), Poly())
+        if k == "ArraySubscriptExpr" or k == "CallExpr":
             return ("ptr:" + norm_c(self.tu.text_of(n)), Poly())
         if k == "UnaryOperator" and n.get("opcode") == "&":
             sub = cfacts.strip(cfacts.kids(n)[0])
@@ -784,6 +829,8 @@ class Ev:
         key = (role, (off + idx).canon())
         if key in env["mem"]:
             return env["mem"][key]
+        if role.split("@")[0] in env.get("zero_roots", ()) and (off + idx).is_const():
+            return Poly()  # element of a zero-initialised buffer that has not been written
         return Poly.atom(("elem", role, (off + idx).canon()))
 
     def call(self, n, env):
@@ -843,6 +890,18 @@ class Ev:
         """interpret a statement; returns the value of a `return` if one is executed"""
         n = omp_unwrap(n)
         k = n.get("kind")
+        if self.lenient and k not in ("CompoundStmt", "ForStmt", "IfStmt", "SwitchStmt"):
+            try:
+                return self._block(n, env)
+            except AnalysisError as e:
+                self.skipped.append(str(e))
+                for did in _assigned_info(n):
+                    env["vals"][did] = None
+                return None
+        return self._block(n, env)
+
+    def _block(self, n, env):
+        k = n.get("kind")
         if k == "CompoundStmt":
             for s in cfacts.kids(n):
                 r = self.block(s, env)
@@ -899,47 +958,21 @@ class Ev:
                 self.block(s, env)
             return None
         if k == "ForStmt":
-            ks = n.get("inner") or []
-            # clang: [init, condvar, cond, inc, body]; empty slots are {} entries
-            body = ks[-1]
-            init = ks[0] if ks and isinstance(ks[0], dict) and ks[0].get("kind") else None
-            carried = set(env.get("carried", ()))
-            assigned = _assigned_scalars(body) | (_assigned_scalars(ks[3]) if len(ks) > 3 and isinstance(ks[3], dict) and ks[3].get("kind") else set())
-            if init is not None:
-                self.block(init, env)
-                ind = _assigned_scalars(init)
-            else:
-                ind = set()
-            # induction variables read as free index symbols
-            for did in ind | (_assigned_scalars(ks[3]) if len(ks) > 3 and isinstance(ks[3], dict) and ks[3].get("kind") else set()):
+            return self._for(n, env)
+        if k in ("WhileStmt", "DoStmt"):
+            ks = cfacts.kids(n)
+            body = ks[-1] if k == "WhileStmt" else ks[0]
+            info = _assigned_info(body)
+            for did in info:
                 env["vals"].pop(did, None)
-                env["index"].add(did)
-            for did in assigned - env["index"]:
-                if did in env["vals"]:
-                    # value from before the loop may be overwritten on an earlier iteration
-                    env["vals"].pop(did)
-                carried.add(did)
             old = env.get("carried", set())
-            env["carried"] = carried - env["index"]
+            env["carried"] = set(old) | set(info)
             r = self.block(body, env)
             env["carried"] = old
+            self._after_loop(info, env, set())
             return r
         if k == "IfStmt":
-            ks = cfacts.kids(n)
-            if n.get("hasElse"):
-                raise AnalysisError("if/else in code that must be straight-line (%s)" % self.where(n))
-            cond = norm_c(self.tu.text_of(ks[0]))
-            before_v, before_p = dict(env["vals"]), dict(env["ptrs"])
-            env["conds"].append(cond)
-            r = self.block(ks[1], env)
-            env["conds"].pop()
-            for did in set(env["vals"]) | set(before_v):
-                if env["vals"].get(did) != before_v.get(did):
-                    env["vals"][did] = None
-            for did in set(env["ptrs"]) | set(before_p):
-                if env["ptrs"].get(did) != before_p.get(did):
-                    env["ptrs"][did] = None
-            return None if r is None else r
+            return self._if(n, env)
         if k == "SwitchStmt":
             sw = switch_groups(self.tu, n)
             res = {"node": n, "var": sw["var"], "var_text": sw["var_text"], "groups": []}
@@ -959,8 +992,235 @@ class Ev:
             name = callee.get("referencedDecl", {}).get("name")
             if name in ("printf", "free", "exit", "fprintf"):
                 return None
-            raise AnalysisError("call statement %s in code that must be straight-line (%s)" % (name, self.where(n)))
+            args = []
+            for a in cfacts.kids(n)[1:]:
+                try:
+                    args.append(None if _is_ptr(a) else self.expr(a, env))
+                except AnalysisError:
+                    args.append(None)
+            self.calls.append({"name": name, "args": args, "conds": tuple(env["conds"]), "node": n})
+            return None
         raise AnalysisError("unsupported statement kind %s (%s)" % (k, self.where(n)))
+
+    # -- loops ---------------------------------------------------------------------------------
+    def _canonical_for(self, ks, env):
+        """for (i = a; i < n; i++)  ->  (decl id of i, a, n_node, strict) or None"""
+        init, cond, inc = ks[0], ks[2], ks[3]
+        did = a = None
+        if isinstance(init, dict) and init.get("kind") == "BinaryOperator" and init.get("opcode") == "=":
+            l, r = cfacts.kids(init)
+            l = cfacts.strip(l)
+            if l.get("kind") == "DeclRefExpr":
+                did, a = l["referencedDecl"]["id"], r
+        elif isinstance(init, dict) and init.get("kind") == "DeclStmt":
+            vs = [d for d in cfacts.kids(init) if d.get("kind") == "VarDecl"]
+            if len(vs) == 1:
+                iv = [c for c in cfacts.kids(vs[0]) if c.get("kind") != "FullComment"]
+                if iv:
+                    did, a = vs[0]["id"], iv[0]
+        if did is None or not isinstance(cond, dict) or cond.get("kind") != "BinaryOperator" \
+                or cond.get("opcode") not in ("<", "<="):
+            return None
+        cl, cr = cfacts.kids(cond)
+        cl = cfacts.strip(cl)
+        if cl.get("kind") != "DeclRefExpr" or cl["referencedDecl"]["id"] != did:
+            return None
+        if not isinstance(inc, dict) or not inc.get("kind"):
+            return None
+        incs = cfacts.kids(inc) if (inc.get("kind") == "BinaryOperator" and inc.get("opcode") == ",") else [inc]
+        ok = False
+        for x in incs:
+            if x.get("kind") == "UnaryOperator" and x.get("opcode") == "++":
+                t = cfacts.strip(cfacts.kids(x)[0])
+                if t.get("kind") == "DeclRefExpr" and t["referencedDecl"]["id"] == did:
+                    ok = True
+        if not ok:
+            return None
+        return did, a, cr, cond.get("opcode") == "<", incs
+
+    def _step_of(self, st, env):
+        """`c++`, `c--`, `c += K`, `c -= K` on an integer scalar -> (decl id, K poly) or None"""
+        st = omp_unwrap(st)
+        if st.get("kind") == "UnaryOperator" and st.get("opcode") in ("++", "--"):
+            t = cfacts.strip(cfacts.kids(st)[0])
+            if t.get("kind") == "DeclRefExpr" and not _is_ptr(t):
+                return t["referencedDecl"]["id"], Poly.const(1 if st["opcode"] == "++" else -1)
+        if st.get("kind") == "CompoundAssignOperator" and st.get("opcode") in ("+=", "-="):
+            l, r = cfacts.kids(st)
+            t = cfacts.strip(l)
+            if t.get("kind") == "DeclRefExpr" and not _is_ptr(t) and _qt(t) in ("int", "size_t", "long"):
+                try:
+                    kv = self.expr(r, env)
+                except AnalysisError:
+                    return None
+                return t["referencedDecl"]["id"], kv if st["opcode"] == "+=" else -kv
+        return None
+
+    def _after_loop(self, info, env, keep):
+        for did, (name, typ) in info.items():
+            if did in keep:
+                continue
+            if typ in ("int", "size_t", "long", "unsigned int"):
+                env["vals"][did] = Poly.atom(("sym", "afterloop:%s" % name))
+            else:
+                env["vals"][did] = None
+
+    def _for(self, n, env):
+        ks = n.get("inner") or []
+        while len(ks) < 5:
+            ks = ks + [{}]
+        body = ks[-1]
+        init = ks[0] if isinstance(ks[0], dict) and ks[0].get("kind") else None
+        inc = ks[3] if isinstance(ks[3], dict) and ks[3].get("kind") else None
+        canon = self._canonical_for(ks, env)
+        # ---- concrete execution of a loop with constant bounds
+        if self.unroll and canon is not None:
+            did, a, cr, strict, incs = canon
+            try:
+                lo = self.expr(a, env).const_value()
+                hi = self.expr(cr, env).const_value()
+            except AnalysisError:
+                lo = hi = None
+            if lo is not None and hi is not None:
+                i = int(lo)
+                last = int(hi) - (1 if strict else 0)
+                count = 0
+                while i <= last:
+                    count += 1
+                    if count > self.max_iter:
+                        raise AnalysisError("loop bound too large for unrolling (%s)" % self.where(n))
+                    env["vals"][did] = Poly.const(i)
+                    r = self.block(body, env)
+                    if r is not None:
+                        return r
+                    for x in incs:
+                        self.block(x, env)
+                    v = env["vals"].get(did)
+                    cv = v.const_value() if v is not None else None
+                    if cv is None:
+                        raise AnalysisError("induction variable modified in the body (%s)" % self.where(n))
+                    i = int(cv)
+                    last = int(self.expr(cr, env).const_value()) - (1 if strict else 0)
+                env["vals"][did] = Poly.const(i)
+                return None
+        # ---- symbolic: the body is interpreted once, for a generic iteration
+        info = _assigned_info(body)
+        inc_info = _assigned_info(inc) if inc is not None else {}
+        if init is not None:
+            self.block(init, env)
+            ind = set(_assigned_info(init))
+            if init.get("kind") == "DeclStmt":
+                ind |= {d["id"] for d in cfacts.kids(init) if d.get("kind") == "VarDecl"}
+        else:
+            ind = set()
+        counters = {}
+        if canon is not None:
+            did, a, cr, strict, incs = canon
+            try:
+                a_v = self.expr(a, env)
+                n_v = self.expr(cr, env) + (Poly() if strict else Poly.const(1))
+            except AnalysisError:
+                a_v = n_v = None
+            if a_v is not None:
+                # top-level unconditional steps of integer scalars assigned nowhere else in the loop
+                tops = [omp_unwrap(x) for x in stmts_of(body)] + [x for x in incs]
+                cand = {}
+                for st in tops:
+                    so = self._step_of(st, env)
+                    if so is not None and so[0] != did:
+                        cand.setdefault(so[0], []).append(so[1])
+                counts = _assign_counts(body, inc)
+                for c, kl in cand.items():
+                    v0 = env["vals"].get(c)
+                    if len(kl) == 1 and counts.get(c, 0) == 1 and v0 is not None and \
+                            not any(_mentions_sym(kl[0], x) for x in ("int:", "carried:", "afterloop:")):
+                        counters[c] = (v0, kl[0], a_v, n_v)
+            ind.add(did)
+        for d_ in ind | (set(inc_info) - set(counters)):
+            env["vals"].pop(d_, None)
+            env["index"].add(d_)
+        if canon is not None:
+            i_sym = None
+            for x in walk_stmts(ks[2]):
+                if x.get("kind") == "DeclRefExpr" and x["referencedDecl"]["id"] == canon[0]:
+                    i_sym = Poly.atom(("sym", "int:" + str(x["referencedDecl"].get("name"))))
+                    break
+            for c, (v0, kk, a_v, n_v) in counters.items():
+                env["vals"][c] = v0 + self.mul(kk, i_sym - a_v)
+        carried = set(env.get("carried", ()))
+        for d_ in set(info) | set(inc_info):
+            if d_ in env["index"] or d_ in counters:
+                continue
+            env["vals"].pop(d_, None)
+            carried.add(d_)
+        old = env.get("carried", set())
+        env["carried"] = carried - env["index"] - set(counters)
+        r = self.block(body, env)
+        env["carried"] = old
+        self._after_loop({**info, **inc_info}, env, set(counters))
+        for c, (v0, kk, a_v, n_v) in counters.items():
+            env["vals"][c] = v0 + self.mul(kk, n_v - a_v)
+        return r
+
+    # -- branches ------------------------------------------------------------------------------
+    def _if(self, n, env):
+        ks = cfacts.kids(n)
+        cond_txt = norm_c(self.tu.text_of(ks[0]))
+        try:
+            cv = self.expr(ks[0], env)
+        except AnalysisError:
+            cv = Poly.atom(("sym", "cond:" + cond_txt))
+        c0 = cv.const_value()
+        has_else = bool(n.get("hasElse")) and len(ks) > 2
+        if c0 is not None and self.unroll:
+            if c0 != 0:
+                return self.block(ks[1], env)
+            return self.block(ks[2], env) if has_else else None
+        guard = Poly.atom(("guard", cv.canon()))
+        e1 = fork_env(env)
+        e1["conds"] = env["conds"] + [cond_txt]
+        r1 = self.block(ks[1], e1)
+        e2 = fork_env(env)
+        r2 = None
+        if has_else:
+            e2["conds"] = env["conds"] + ["!(" + cond_txt + ")"]
+            r2 = self.block(ks[2], e2)
+        if r1 is not None or r2 is not None:
+            if r1 is not None and r2 is not None and r1 == r2:
+                return r1
+            raise AnalysisError("conditional return (%s)" % self.where(n))
+        for tab in ("vals", "fields"):
+            before = env[tab]
+            for key in set(e1[tab]) | set(e2[tab]) | set(before):
+                v1, v2, v0 = e1[tab].get(key, MISSING), e2[tab].get(key, MISSING), before.get(key, MISSING)
+                if v1 == v2:
+                    new = v1
+                elif not has_else and isinstance(v1, Poly) and isinstance(v0, Poly):
+                    new = v0 + self.mul(guard, v1 - v0)
+                elif has_else and isinstance(v1, Poly) and isinstance(v2, Poly):
+                    new = v2 + self.mul(guard, v1 - v2)
+                else:
+                    new = None
+                if new is MISSING:
+                    before.pop(key, None)
+                else:
+                    before[key] = new
+        for key in set(e1["ptrs"]) | set(e2["ptrs"]):
+            p1, p2 = e1["ptrs"].get(key, MISSING), e2["ptrs"].get(key, MISSING)
+            env["ptrs"][key] = p1 if p1 == p2 else None
+        for key in set(e1["mem"]) | set(e2["mem"]):
+            m1, m2 = e1["mem"].get(key, MISSING), e2["mem"].get(key, MISSING)
+            if m1 == m2:
+                env["mem"][key] = m1
+            else:
+                env["mem"][key] = Poly.atom(("sym", "unknown:%s" % (key[0],)))
+        n0 = len(env["stores"])
+        env["stores"].extend(e1["stores"][n0:])
+        env["stores"].extend(e2["stores"][n0:])
+        env["index"] |= e1["index"] | e2["index"]
+        env["allocs"].update(e1["allocs"])
+        env["allocs"].update(e2["allocs"])
+        return None
 
     def value_or_none(self, n, env):
         if _is_ptr(n):
@@ -970,6 +1230,14 @@ class Ev:
     def assign(self, l, r, env, op):
         l = cfacts.strip(l)
         if _is_ptr(l):
+            if l.get("kind") in ("MemberExpr", "ArraySubscriptExpr"):
+                # a pointer stored into an object: remember how a field was allocated, nothing else
+                if l.get("kind") == "MemberExpr" and op is None:
+                    rr = cfacts.strip(r)
+                    callee = cfacts.strip(cfacts.kids(rr)[0]) if rr.get("kind") == "CallExpr" else {}
+                    env["allocs"][self.field_key(l)] = callee.get("referencedDecl", {}).get("name") or \
+                        norm_c(self.tu.text_of(rr))
+                return
             if l.get("kind") != "DeclRefExpr":
                 raise AnalysisError("store to a pointer lvalue that is not a variable (%s)" % self.where(l))
             did = l["referencedDecl"]["id"]
@@ -1017,10 +1285,53 @@ class Ev:
             env["mem"][(role, off.canon())] = rv
             env["stores"].append({"root": role, "index": off, "value": rv, "node": l, "conds": tuple(env["conds"])})
             return
+        if l.get("kind") == "MemberExpr":
+            env["fields"][self.field_key(l)] = rv
+            return
         raise AnalysisError("unsupported assignment target (%s)" % self.where(l))
 
 
 IMAG = ("sym", "<I>")
+MISSING = object()
+
+
+def _mentions_sym(p, prefix):
+    return prefix in p.text()
+
+
+def _assign_counts(body, inc):
+    """decl id -> number of assignment sites (any depth) in a loop body and its increment slot"""
+    out = {}
+    for root in (body, inc):
+        if not isinstance(root, dict) or not root.get("kind"):
+            continue
+        for x in walk_stmts(root):
+            k = x.get("kind")
+            tgt = None
+            if (k == "BinaryOperator" and x.get("opcode") == "=") or k == "CompoundAssignOperator":
+                tgt = cfacts.strip(cfacts.kids(x)[0])
+            elif k == "UnaryOperator" and x.get("opcode") in ("++", "--"):
+                tgt = cfacts.strip(cfacts.kids(x)[0])
+            if tgt is not None and tgt.get("kind") == "DeclRefExpr":
+                out[tgt["referencedDecl"]["id"]] = out.get(tgt["referencedDecl"]["id"], 0) + 1
+    return out
+
+
+def _assigned_info(n):
+    """decl id -> (name, type) of the non-pointer variables assigned anywhere under n"""
+    out = {}
+    if not isinstance(n, dict) or not n.get("kind"):
+        return out
+    for x in walk_stmts(n):
+        k = x.get("kind")
+        tgt = None
+        if (k == "BinaryOperator" and x.get("opcode") == "=") or k == "CompoundAssignOperator":
+            tgt = cfacts.strip(cfacts.kids(x)[0])
+        elif k == "UnaryOperator" and x.get("opcode") in ("++", "--"):
+            tgt = cfacts.strip(cfacts.kids(x)[0])
+        if tgt is not None and tgt.get("kind") == "DeclRefExpr" and not _is_ptr(tgt):
+            out[tgt["referencedDecl"]["id"]] = (tgt["referencedDecl"].get("name"), _qt(tgt))
+    return out
 
 
 def complex_parts(p):
@@ -1033,6 +1344,8 @@ def complex_parts(p):
             if a == IMAG:
                 k = e
             else:
+                if a[0] != "sym" and "<I>" in atom_text(a):
+                    raise AnalysisError("imaginary unit inside an atomised factor: complex parts cannot be separated")
                 rest.append((a, e))
         if k.denominator != 1:
             raise AnalysisError("fractional power of the imaginary unit")
@@ -1044,9 +1357,38 @@ def complex_parts(p):
     return Poly(re_), Poly(im_)
 
 
+def global_const_arrays(tu):
+    """file-scope `double NAME[n] = { [-]MACRO|number, ... };` -> {NAME: [Fraction]} (macros resolved through the
+    -dM table; values rounded to double the way clang prints floating literals)"""
+    out = {}
+    for m in re.finditer(r"\bdouble\s+(\w+)\s*\[[^\]]*\]\s*=\s*\{([^}]*)\}", tu.text):
+        vals = []
+        for el in m.group(2).split(","):
+            el = el.strip()
+            if not el:
+                continue
+            sign = 1
+            while el[:1] in "+-":
+                sign = -sign if el[0] == "-" else sign
+                el = el[1:].strip()
+            txt = el
+            seen = 0
+            while txt in tu.macros and tu.macros[txt][0] is None and seen < 5:
+                txt = tu.macros[txt][1].strip().strip("()")
+                seen += 1
+            try:
+                vals.append(sign * Fr(repr(float(txt))))
+            except ValueError:
+                vals = None
+                break
+        if vals:
+            out[m.group(1)] = vals
+    return out
+
+
 def new_env(roles=None):
     return {"vals": {}, "ptrs": {}, "mem": {}, "stores": [], "roles": dict(roles or {}), "index": set(),
-            "undef": set(), "conds": [], "carried": set()}
+            "undef": set(), "conds": [], "carried": set(), "fields": {}, "fields_by_type": {}, "allocs": {}}
 
 
 def fork_env(env):
